@@ -13,6 +13,7 @@
       is in simulation with S.
    3. hence every theorem about `repair` over a `Refines` source transfers to a `RdRefines`
       source: `repair_rd_transfer`, and the re-exported C02/C05 theorems below. *)
+From MLA Require Import Limit.
 From MLA Require Import Base Stream Blocks Writer Repair RepairSpec RepairPure
   RepairProofs1 RepairProofs2 RepairProofs3 RepairProofs4 RepairProofs5 RepairProofs6 EncAuthFs.
 From Coq Require Import ZifyBool ZifyNat ZifyN.
@@ -20,6 +21,7 @@ Open Scope N_scope.
 
 (* ---------- 1. simulation ---------- *)
 Section Sim.
+  Context {LIM : Limit}.
   Variables S1 S2 : Stream.
   Variable sim : st S1 -> st S2 -> Prop.
   Definition simp {A} (x : st S1 * A) (y : st S2 * A) : Prop := sim (fst x) (fst y) /\ snd x = snd y.
@@ -171,6 +173,7 @@ End Sim.
 
 (* ---------- 2. a read-only source with a working seek added ---------- *)
 Section SeekView.
+  Context {LIM : Limit}.
   Variable S : Stream.
   Variable b : bytes.
   Variable I : st S -> N -> Prop.
@@ -230,6 +233,7 @@ End SeekView.
 
 (* ---------- the C02/C05 theorems for read-only sources ---------- *)
 Section RdOnlyRepair.
+  Context {LIM : Limit}.
   Variable FNMAX CACHE : N.
   Hypothesis HFN : FNMAX < 2 ^ 64.
   Hypothesis HCACHE : 0 < CACHE.
@@ -257,6 +261,13 @@ Section RdOnlyRepair.
   Hypothesis Hs0 : I s0 0.
   Variable fuel : nat.
   Hypothesis Hfuel : (N.to_nat (len w) < fuel)%nat.
+  (* finalize did not fail with SerializationError (footer within the bincode limit) *)
+  Hypothesis Hser : repair S fuel s0 w_init <> Err EDeser.
+
+  Lemma repair_rd_ser_view :
+    Repair.repair FNMAX CACHE T_START T_CONTENT T_EOA T_EOF H (SeekView S w) fuel (s0, 0, false) w_init
+      <> Err EDeser.
+  Proof. rewrite <- (repair_rd_transfer S w). exact Hser. Qed.
 
   Theorem repair_exact_rd :
     exists out obl,
@@ -268,7 +279,7 @@ Section RdOnlyRepair.
     rewrite (repair_rd_transfer S w).
     exact (repair_exact FNMAX CACHE HFN HCACHE T_START T_CONTENT T_EOA T_EOF Htags H H_len
              (SeekView S w) w (SvR S w I) (seekview_refines S w I HR) bl trailer Hwf Htr Hpre
-             (s0, 0, false) (SvR_init S w I s0 Hs0) fuel Hfuel).
+             (s0, 0, false) (SvR_init S w I s0 Hs0) fuel Hfuel repair_rd_ser_view).
   Qed.
 
   Theorem repair_sound_rd :
@@ -288,7 +299,7 @@ Section RdOnlyRepair.
     rewrite (repair_rd_transfer S w).
     exact (repair_sound_any_prefix FNMAX CACHE HFN HCACHE T_START T_CONTENT T_EOA T_EOF Htags H H_len
              (SeekView S w) w (SvR S w I) (seekview_refines S w I HR) bl trailer Hwf Htr Hpre
-             (s0, 0, false) (SvR_init S w I s0 Hs0) fuel Hfuel).
+             (s0, 0, false) (SvR_init S w I s0 Hs0) fuel Hfuel repair_rd_ser_view).
   Qed.
 
   Theorem repair_max_rd :
@@ -301,7 +312,7 @@ Section RdOnlyRepair.
     rewrite (repair_rd_transfer S w).
     exact (repair_max_any_prefix FNMAX CACHE HFN HCACHE T_START T_CONTENT T_EOA T_EOF Htags H H_len
              (SeekView S w) w (SvR S w I) (seekview_refines S w I HR) bl trailer Hwf Htr Hpre
-             (s0, 0, false) (SvR_init S w I s0 Hs0) fuel Hfuel).
+             (s0, 0, false) (SvR_init S w I s0 Hs0) fuel Hfuel repair_rd_ser_view).
   Qed.
 
   Theorem repair_intact_rd :
@@ -314,6 +325,6 @@ Section RdOnlyRepair.
     rewrite (repair_rd_transfer S w).
     exact (repair_intact_any FNMAX CACHE HFN HCACHE T_START T_CONTENT T_EOA T_EOF Htags H H_len
              (SeekView S w) w (SvR S w I) (seekview_refines S w I HR) bl trailer Hwf Htr Hpre
-             (s0, 0, false) (SvR_init S w I s0 Hs0) fuel Hfuel).
+             (s0, 0, false) (SvR_init S w I s0 Hs0) fuel Hfuel repair_rd_ser_view).
   Qed.
 End RdOnlyRepair.
